@@ -9,6 +9,9 @@
 // <files> = the property files of the case, `name=hex(content)` joined by commas: the bytes are written verbatim,
 // the model parses them itself (Model/ConfigDecode.v prop_of_files).
 //
+//	hdr  <n> <hex,hex,...>                                     util.DecodeHeader on every line + util.DecodeHTTPConfigHeaders on the list
+//	prop <hex content> <hex key>                                the content written to a file, confutil.PropertyTagResolver("file#key")
+//
 // <mut> says what the case was built for (the model driver evaluates the specification accordingly):
 //
 //	base             a valid configuration (must decode; options not written keep the defaults)
@@ -22,7 +25,9 @@
 //	bare             base with the component at <path> reduced to its type key (an error when the registered defaults violate a validate tag)
 //	free             anything else (correspondence only)
 //
-// Observation: `ok <dump>[ f=<factory call bits>]` | `err` | `panic` | `hang` (no answer within 3 s).
+// Observation: `ok <dump>[ f=<factory call bits>]` | `err` | `panic` | `hang` (no answer within 3 s);
+// hdr: `<line>;<line>;... R:ok:<number of header values>|R:err:<format|emptykey|other>` with <line> = `L:<hex name>:<hex value>` |
+// `E:<format|emptykey|other>`; prop: `ok <hex data>` | `err`.
 package main
 
 import (
@@ -39,6 +44,8 @@ import (
 	"github.com/c2h5oh/datasize"
 	"github.com/spf13/afero"
 	"github.com/yandex/pandora/cli"
+	hutil "github.com/yandex/pandora/components/providers/http/util"
+	"github.com/yandex/pandora/lib/confutil"
 	"github.com/yandex/pandora/core/config"
 	"go.uber.org/zap/zapcore"
 	"gopkg.in/yaml.v2"
@@ -470,10 +477,168 @@ func run(cases []string) []string {
 			undo := setupEnv(f[4], f[5])
 			res = runCli(tree, i)
 			undo()
+		case f[0] == "hdr" && len(f) == 3:
+			res = runHdr(f[1], f[2])
+		case f[0] == "prop" && len(f) == 3:
+			res = runProp(string(vh.UnHex(f[1])), string(vh.UnHex(f[2])))
 		default:
 			res = "badcase"
 		}
 		out = append(out, res)
+	}
+	return out
+}
+
+// ---------------------------------------------------------------------------------------------
+// direct cases: the header-list decoder and the property-file reader on their own
+
+func hdrErr(err error) string {
+	switch err {
+	case hutil.ErrHeaderFormat:
+		return "format"
+	case hutil.ErrEmptyKey:
+		return "emptykey"
+	}
+	return "other"
+}
+
+func parseHdrList(n, tok string) ([]string, bool) {
+	cnt, err := strconv.Atoi(n)
+	if err != nil {
+		return nil, false
+	}
+	if cnt == 0 {
+		return nil, tok == "-"
+	}
+	parts := strings.Split(tok, ",")
+	if len(parts) != cnt {
+		return nil, false
+	}
+	out := make([]string, cnt)
+	for i, p := range parts {
+		out[i] = string(vh.UnHex(p))
+	}
+	return out, true
+}
+
+func hdrCase(lines []string) string {
+	if len(lines) == 0 {
+		return "hdr 0 -"
+	}
+	parts := make([]string, len(lines))
+	for i, l := range lines {
+		parts[i] = vh.HexS(l) // "-" for an empty line
+	}
+	return "hdr " + strconv.Itoa(len(lines)) + " " + strings.Join(parts, ",")
+}
+
+func runHdr(n, tok string) (res string) {
+	defer func() {
+		if r := recover(); r != nil {
+			res = "panic"
+		}
+	}()
+	lines, ok := parseHdrList(n, tok)
+	if !ok {
+		return "badcase"
+	}
+	var parts []string
+	for _, l := range lines {
+		k, v, err := hutil.DecodeHeader(l)
+		if err != nil {
+			parts = append(parts, "E:"+hdrErr(err))
+		} else {
+			parts = append(parts, "L:"+vh.HexS(k)+":"+vh.HexS(v))
+		}
+	}
+	if len(parts) == 0 {
+		parts = []string{"-"}
+	}
+	hs, err := hutil.DecodeHTTPConfigHeaders(lines)
+	if err != nil {
+		return strings.Join(parts, ";") + " R:err:" + hdrErr(err)
+	}
+	total := 0
+	for _, vs := range hs {
+		total += len(vs)
+	}
+	return strings.Join(parts, ";") + " R:ok:" + strconv.Itoa(total)
+}
+
+func runProp(content, key string) (res string) {
+	defer func() {
+		if r := recover(); r != nil {
+			res = "panic"
+		}
+	}()
+	os.MkdirAll(propDir, 0o755)
+	file := propDir + "/direct.properties"
+	os.WriteFile(file, []byte(content), 0o644)
+	defer os.Remove(file)
+	v, err := confutil.PropertyTagResolver(file + "#" + key)
+	if err != nil {
+		return "err"
+	}
+	return "ok " + vh.HexS(v)
+}
+
+func genDirect(r *vh.Rand, thorough bool) []string {
+	var out []string
+	// header lists: every malformed kind alone and at each position of a three-line list, then PRNG lists
+	for _, b := range hdrBad {
+		out = append(out, hdrCase([]string{b}), hdrCase([]string{b, hdrGood[0], hdrGood[1]}), hdrCase([]string{hdrGood[0], b, hdrGood[1]}), hdrCase([]string{hdrGood[0], hdrGood[1], b}))
+	}
+	out = append(out, hdrCase(nil), hdrCase(hdrGood))
+	n := 150
+	if thorough {
+		n = 3000
+	}
+	names := []string{"Host", "X-A", "accept-encoding", " Padded ", "", " ", "\t", "a b", "X:Y", "[", "Content-Type"}
+	vals := []string{"v", "", " spaced out ", "a:b:c", "[x]", "k=v; q=0.5", "]", "\tt\t"}
+	for i := 0; i < n; i++ {
+		var l []string
+		for j, m := 0, r.Intn(6); j < m; j++ {
+			name, val := r.Pick(names), r.Pick(vals)
+			switch r.Intn(10) {
+			case 0:
+				l = append(l, name+": "+val)
+			case 1:
+				l = append(l, "["+name+" "+strings.ReplaceAll(val, ":", "")+"]")
+			case 2:
+				l = append(l, r.Pick([]string{"", "[", "]", "[]", "[:", ":]", "[:]", "[a]", "[[a:b]]", "[a:b]]", " [a:b]", "[a:b] "}))
+			default:
+				l = append(l, "["+name+":"+val+"]")
+			}
+		}
+		out = append(out, hdrCase(l))
+	}
+	// property files: lines drawn from the shapes the reader distinguishes; the asked key is mostly one of the file
+	keys := []string{"k1", "k", "k10", "K1", "name", "a.b", "k 1", ""}
+	datas := []string{"v", "", "a=b", "==", "dXNlcjpwYXNzd29yZA==", "/ping?probe=1&x=2", " spaced ", "v # not a comment", "\ttab", "é"}
+	for i := 0; i < n; i++ {
+		var b strings.Builder
+		for j, m := 0, r.Intn(7); j < m; j++ {
+			eol := "\n"
+			if r.Chance(1, 5) {
+				eol = "\r\n"
+			}
+			if j == m-1 && r.Chance(1, 3) {
+				eol = r.Pick([]string{"", "\r"})
+			}
+			switch r.Intn(8) {
+			case 0:
+				b.WriteString(r.Pick([]string{"# comment", "", "no equals", "  ", "k1", "k1 "}) + eol)
+			case 1:
+				b.WriteString(r.Pick([]string{" ", ""}) + r.Pick(keys) + r.Pick([]string{" =", "= ", " = "}) + r.Pick(datas) + eol)
+			default:
+				b.WriteString(r.Pick(keys) + "=" + r.Pick(datas) + eol)
+			}
+		}
+		key := r.Pick(keys)
+		if r.Chance(1, 10) {
+			key = r.Pick([]string{"k=1", "k1 ", " k1", "missing"})
+		}
+		out = append(out, "prop "+vh.HexS(b.String())+" "+vh.HexS(key))
 	}
 	return out
 }
@@ -1359,7 +1524,7 @@ func gen(r *vh.Rand, tier string) []string {
 			}
 		}
 	}
-	_ = r
+	out = append(out, genDirect(r, thorough)...)
 	return out
 }
 
